@@ -112,4 +112,45 @@ theorem tie_profile_field_order :
         "PriorityClassName", "KoordinatorPriority", "Patch"].contains f) =
       ["Labels", "LabelKeysMapping", "LabelSuffixes", "QoSClass", "PriorityClassName", "KoordinatorPriority", "Patch"] := by decide
 
+/-! ### the entry points (Model/C13Handle.lean) -/
+
+/-- shouldIgnoreIfNotPod (both packages): a sub-resource or a resource other than "pods" (the model's `shouldIgnore`). -/
+theorem tie_should_ignore :
+    Generated.C13.ignoreMutating = ["\"pods\"", "AdmissionRequest", "Resource", "SubResource", "len", "||", "!=", "!="] ∧
+    Generated.C13.ignoreValidating = Generated.C13.ignoreMutating := by decide
+
+/-- PodMutatingHandler.Handle: ignore guard first; CREATE ↦ handleCreate, UPDATE ↦ handleUpdate, anything else is allowed
+    as it is; no patch unless a step reported `mutated`; the patch is the diff of the marshalled pods (the model's
+    `handleMutating`). -/
+theorem tie_mutating_handle :
+    Generated.C13.mutatingFirstGuard = "shouldIgnoreIfNotPod" ∧
+    Generated.C13.mutatingDispatch = [("Create", "handleCreate"), ("Update", "handleUpdate"), ("default", "\"\",Allowed")] ∧
+    Generated.C13.mutatingNoPatchUnlessMutated = true ∧
+    Generated.C13.mutatingPatchFrom = "PatchResponseFromRaw" := by decide
+
+/-- `mutated` bookkeeping: handleCreate ORs the flag of every step into its result; handleUpdate runs no step;
+    clusterColocationProfileMutatingPod acts on CREATE only and returns (flag of an applied profile) OR (flag of
+    mutatePodResourceSpec) — the model's `colocationMutate` / `handleCreate`. -/
+theorem tie_mutated_flags :
+    Generated.C13.handleCreateFlagOrs = Generated.C13.handleCreateSteps.length ∧
+    Generated.C13.handleUpdateSteps = [] ∧
+    Generated.C13.colocationCreateOnly = true ∧
+    Generated.C13.colocationOrsResourceFlag = true := by decide
+
+/-- validatingPodFn: in front of the validators exactly two guards admit a request (not a pod / a sub-resource; DELETE
+    without an old object) and two reject it (object / old object does not decode); then the validators in this order
+    (the model's `handleValidating`). -/
+theorem tie_validating_entry :
+    Generated.C13.validatingEarlyAdmits = [["shouldIgnoreIfNotPod"], ["Delete", "OldObject", "Operation", "Raw", "len"]] ∧
+    Generated.C13.validatingEarlyRejects = 2 ∧
+    Generated.C13.validatingSteps.take 2 = ["clusterReservationValidatingPod", "clusterColocationProfileValidatingPod"] := by decide
+
+/-- clusterColocationProfileValidatingPod: the immutability checks run on UPDATE (sub-priority behind the negated
+    feature gate), the four protocol checks on every operation (the model's `validateErrs`). -/
+theorem tie_validating_checks :
+    Generated.C13.updateChecks = ["validateImmutableQoSClass", "validateImmutablePriorityClass"] ∧
+    Generated.C13.updateGatedChecks = ["!ColocationProfileSkipValidatingPriority,DefaultFeatureGate,Enabled:validateImmutablePriority"] ∧
+    Generated.C13.alwaysChecks = ["validateRequiredQoSClass", "forbidSpecialQoSClassAndPriorityClass",
+      "forbidSpecialQoSClassAndPriorityClass", "validateResources"] := by decide
+
 end KoordVerif.C13
